@@ -53,6 +53,12 @@ static void work_pos(long lo, long hi, struct res *r, void *arg) {
                 if (!okk) { snprintf(key, sizeof key, "c07:own-index-auto:%s:%u", RL[li].code, idx); snprintf(rep, sizeof rep, "auto %d 0 %s", li, ph);
                     res_viol(r, key, rep, "word %u (\"%s\") of %s at position %d: automatic detection gives status %d%s", idx, RL[li].w[idx], RL[li].code, p + 1, as, as == 0 ? (lo_ == polyseed_get_lang(li) ? " and a different seed" : " and another language") : ""); }
                 else { r->validated++; r->cls[1]++; }
+                /* the language output is optional: without it the verdict and the seed are the same */
+                { polyseed_data *dn = NULL; int an = polyseed_decode(ph, 0, NULL, &dn); r->calls++; r->cases++;
+                  uint8_t gn[32]; memset(gn, 0, 32); if (an == POLYSEED_OK) { polyseed_store(dn, gn); polyseed_free(dn); r->calls += 2; }
+                  if (an != as || memcmp(gn, ga, 32)) { snprintf(key, sizeof key, "c07:own-index-auto-nolang:%s:%u", RL[li].code, idx); snprintf(rep, sizeof rep, "auto %d 0 %s", li, ph);
+                      res_viol(r, key, rep, "word %u of %s at position %d: automatic detection without a language output gives status %d%s, with one status %d", idx, RL[li].code, p + 1, an, an == as ? " and another seed" : "", as); }
+                  else { r->validated++; r->cls[1]++; } }
             }
         }
     }
@@ -70,6 +76,7 @@ int main(int argc, char **argv) {
         polyseed_data *d = NULL, *e = NULL; const polyseed_lang *lo_ = NULL; int st = polyseed_decode_explicit(ph, coin, polyseed_get_lang(li), &d), as = polyseed_decode(ph, coin, &lo_, &e);
         uint8_t g1[32] = {0}, g2[32] = {0}; if (st == 0) polyseed_store(d, g1); if (as == 0) polyseed_store(e, g2);
         printf("decode_explicit -> %d, decode -> %d (language %d), same seed: %s\n", st, as, as == 0 ? lang_index(lo_) : -1, memcmp(g1, g2, 32) ? "no" : "yes");
+        { polyseed_data *dn = NULL; int an = polyseed_decode(ph, coin, NULL, &dn); uint8_t g3[32] = {0}; if (an == 0) polyseed_store(dn, g3); printf("decode without a language output -> %d\n", an); if (an != as || memcmp(g3, g2, 32)) { printf("REPRODUCED\n"); return 1; } }
         unsigned which = 0; if (!(as == 0 && st == 0 && !memcmp(g1, g2, 32) && lo_ == polyseed_get_lang(li)) && !(as == POLYSEED_ERR_MULT_LANG && ref_count_langs(ph, CAP, &which) >= 2)) { printf("REPRODUCED\n"); return 1; }
         return 0;
     }
